@@ -125,6 +125,11 @@ def run (s : Srv) (ops : List Op) : Srv := ops.foldl step s
 
 def init (f : Fmt) (fb : Img) : Srv := ⟨f, ⟨fb.w, fb.h, 0, fb⟩, [], []⟩
 
+/-- rfbScaledScreensNewFramebuffer (called by rfbNewFramebuffer, property C16): one dimension of a
+scaled screen is recomputed with the same reduction, `ptr->width * screen->width / oldWidth`, but
+never below 1 -/
+def resizeDim (t oldW newW : Nat) : Nat := max 1 (t * newW / oldW)
+
 /-- number of clients using the screen of dimensions `(w,h)` -/
 def users (cs : List Client) (w h : Nat) : Nat := cs.countP fun c => c.sw == w && c.sh == h
 
